@@ -19,11 +19,17 @@ var Picker = map[string]picker{
 
 // rndPicker picks a random target from the list of targets.
 func rndPicker(r *Route) *Target {
+	if len(r.wTargets) == 0 {
+		return nil
+	}
 	return r.wTargets[randIntn(len(r.wTargets))]
 }
 
 // rrPicker picks the next target from a list of targets using round-robin.
 func rrPicker(r *Route) *Target {
+	if len(r.wTargets) == 0 {
+		return nil
+	}
 	n := atomic.AddUint64(&r.total, 1) - 1
 	return r.wTargets[n%uint64(len(r.wTargets))]
 }
